@@ -208,7 +208,7 @@ struct SIMDVector<int64_t,simd_abi::avx512> {
 
     FASTOR_INLINE int64_t minimum() {
         const internal::int64_lane_t *vals = reinterpret_cast<const internal::int64_lane_t*>(&value);
-        int64_t quan = 0;
+        int64_t quan = vals[0];
         for (FASTOR_INDEX i=0; i<Size; ++i)
             if (vals[i]<quan)
                 quan = vals[i];
@@ -216,7 +216,7 @@ struct SIMDVector<int64_t,simd_abi::avx512> {
     }
     FASTOR_INLINE int64_t maximum() {
         const internal::int64_lane_t *vals = reinterpret_cast<const internal::int64_lane_t*>(&value);
-        int64_t quan = 0;
+        int64_t quan = vals[0];
         for (FASTOR_INDEX i=0; i<Size; ++i)
             if (vals[i]>quan)
                 quan = vals[i];
@@ -554,7 +554,7 @@ struct SIMDVector<int64_t,simd_abi::avx> {
 
     FASTOR_INLINE int64_t minimum() {
         const internal::int64_lane_t *vals = reinterpret_cast<const internal::int64_lane_t*>(&value);
-        int64_t quan = 0;
+        int64_t quan = vals[0];
         for (FASTOR_INDEX i=0; i<Size; ++i)
             if (vals[i]<quan)
                 quan = vals[i];
@@ -562,7 +562,7 @@ struct SIMDVector<int64_t,simd_abi::avx> {
     }
     FASTOR_INLINE int64_t maximum() {
         const internal::int64_lane_t *vals = reinterpret_cast<const internal::int64_lane_t*>(&value);
-        int64_t quan = 0;
+        int64_t quan = vals[0];
         for (FASTOR_INDEX i=0; i<Size; ++i)
             if (vals[i]>quan)
                 quan = vals[i];
@@ -870,7 +870,7 @@ struct SIMDVector<int64_t,simd_abi::sse> {
 
     FASTOR_INLINE int64_t minimum() {
         const internal::int64_lane_t *vals = reinterpret_cast<const internal::int64_lane_t*>(&value);
-        int64_t quan = 0;
+        int64_t quan = vals[0];
         for (FASTOR_INDEX i=0; i<Size; ++i)
             if (vals[i]<quan)
                 quan = vals[i];
@@ -878,7 +878,7 @@ struct SIMDVector<int64_t,simd_abi::sse> {
     }
     FASTOR_INLINE int64_t maximum() {
         const internal::int64_lane_t *vals = reinterpret_cast<const internal::int64_lane_t*>(&value);
-        int64_t quan = 0;
+        int64_t quan = vals[0];
         for (FASTOR_INDEX i=0; i<Size; ++i)
             if (vals[i]>quan)
                 quan = vals[i];
